@@ -27,7 +27,7 @@ RULE = ("C01's bodies with handlers for CancelledError/BaseException that log, a
 def run(ctx):
     K.run_corpus(ctx, PROP, THEOREM)
     if ctx.thorough():
-        n = (20000, 8000, 6000)
+        n = (14000, 6000, 4000)
     else:
         n = (3000, 1200, 1000)
     K.run_stream(ctx, PROP, THEOREM, True, *n)
